@@ -145,6 +145,15 @@ SYSTEM_WIDE = {
 }
 # Python-level probe functions: a native call / OS access issued underneath one of these answers
 # "does the pid still exist / is it a zombie", it is not part of the method's own work
+# natives that do not fail for a PID that is gone (they filter a system-wide table by PID; C sources: openbsd/proc.c
+# kvm_getprocs -> 0 entries, */socks.c table walks, netbsd kinfo_getfile by pid, sunos/aix net_connections)
+SILENT_NATIVES = {
+    "openbsd": {"proc_threads": [], "net_connections": []},
+    "netbsd": {"net_connections": [], "proc_num_fds": 0},
+    "sunos": {"net_connections": []},
+    "aix": {"net_connections": [], "proc_threads": []},
+    "windows": {"net_connections": []},
+}
 PROBE_FUNCS = {"is_zombie", "pid_exists", "pids", "_pid_0_exists"}
 # front-end frames whose native calls belong to the identity re-check, not to the method under test
 FRONT_RECHECK = {"is_running", "_init", "_get_ident", "__init__"}
@@ -256,6 +265,21 @@ def layout(platform, name):
         if key in LAYOUT:
             return LAYOUT[key]
     raise KeyError((platform, name))
+
+
+# Windows volumes: device names where one is a textual prefix of another, resolved by the stubbed QueryDosDevice.
+WIN_VOLUMES = {"\\Device\\HarddiskVolume1": "C:", "\\Device\\HarddiskVolume12": "X:",
+               "\\Device\\HarddiskVolume20": "Y:", "\\Device\\HarddiskVolume2": "D:"}
+WIN_VOLUME_ORDER = list(WIN_VOLUMES)
+
+
+def win_device(salt, k):
+    """Device holding the k-th kind of path (0 exe, 1 mapped files, 2/3 open files) of the process with this salt."""
+    return WIN_VOLUME_ORDER[(salt + k) % len(WIN_VOLUME_ORDER)]
+
+
+def win_drive(salt, k):
+    return WIN_VOLUMES[win_device(salt, k)]
 
 
 def fill(names, base, overrides=None, floats=FLOAT_SLOTS):
@@ -493,6 +517,7 @@ class World:
         self.plat = None
         self.vk = None
         self.fs = None
+        self.silent_exit = False        # scenario: a gone pid makes natives fail (ESRCH) or answer with nothing (SILENT_NATIVES)
         self.gone_on_fire = False       # scenario: the pid vanishes at the moment the first fault fires
         self.reset()
 
@@ -500,6 +525,7 @@ class World:
     def reset(self, pid=4321, state="live", salt=1, pid0_listed=True, no_tty=False, tty_rdev=None,
               status=None, name="python3.9", zombie_code=None):
         self.pid = pid
+        self.silent_exit = False
         self.zombie_code = zombie_code or ZOMBIE_CODES.get(self.platform, ["SZOMB"])[0]
         self.state = state              # what the layer's status probes see
         self.salt = salt
@@ -612,6 +638,14 @@ class World:
         h = getattr(self, "n_" + name, None)
         if h is None:
             raise NotImplementedError(f"platstub: no handler for native {modname}.{name}")
+        if self.silent_exit and self.state == "gone" and args and args[0] == self.pid and self.pid != 0 \
+                and name not in ("pid_exists", "check_pid_range"):
+            # the process has exited for real: the natives that walk a system-wide table answer with an empty listing,
+            # every other one fails the way the kernel does
+            silent = SILENT_NATIVES.get(self.platform, {})
+            if name in silent:
+                return type(silent[name])(silent[name])
+            raise self.esrch(name)
         return h(c, *args, **kwargs)
 
     def _probe_gate(self, c, pid):
@@ -686,7 +720,7 @@ class World:
 
     def n_proc_exe(self, c, pid):
         if self.platform == "windows":
-            return "\\Device\\HarddiskVolume1\\Windows\\notepad%d.exe" % self.salt
+            return win_device(self.salt, 0) + "\\Windows\\notepad%d.exe" % self.salt
         return "/usr/local/bin/python3.9"
 
     def n_proc_cmdline(self, c, pid, **kw):
@@ -714,7 +748,7 @@ class World:
 
     def n_proc_open_files(self, c, pid):
         if self.platform == "windows":
-            return ["\\Device\\HarddiskVolume1\\Windows\\a.txt", "\\Device\\HarddiskVolume1\\b.log"]
+            return [win_device(self.salt, 2) + "\\Windows\\a.txt", win_device(self.salt, 3) + "\\b.log"]
         return [(REAL_FILE, 3), ("/nonexistent/gone", 4)]
 
     def n_proc_net_connections(self, c, pid, families, types):
@@ -767,8 +801,9 @@ class World:
         if self.platform == "sunos":
             return [(0x1000, 0x2000, "r-x", "a.out", b + 1, b + 2, b + 3),
                     (0x8000, 0x9000, "rw-", "[heap]", b + 4, b + 5, b + 6)]
-        return [(0x400000, "r", "\\Device\\HarddiskVolume1\\Windows\\n.dll", b + 1),
-                (0x800000, "rw", "\\Device\\HarddiskVolume1\\Windows\\n.dll", b + 2)]
+        dev = win_device(self.salt, 1)
+        return [(0x400000, "r", dev + "\\Windows\\n.dll", b + 1),
+                (0x800000, "rw", dev + "\\Windows\\n.dll", b + 2)]
 
     # per-process: sunos / aix
     def n_proc_basic_info(self, c, pid, *a):
@@ -839,7 +874,7 @@ class World:
         raise self.consts["TimeoutExpired"]()
 
     def n_QueryDosDevice(self, c, raw):
-        return "C:"
+        return WIN_VOLUMES.get(raw, "")
 
     # system tables
     def _sys(self, name, base_add=0):
@@ -974,7 +1009,7 @@ class World:
         m = re.match(r"^/proc/(\d+)(/|$)", path)
         pid = int(m.group(1)) if m else None
         c = self.stub.enter("fs:" + kind, (path,), pid == self.pid)   # raises the planned fault
-        if pid is not None and pid == self.pid and self.state == "gone" and (c.probe or c.predicate):
+        if pid is not None and pid == self.pid and self.state == "gone" and (c.probe or c.predicate or self.silent_exit):
             return OSError(errno.ENOENT, os.strerror(errno.ENOENT), path)
         if pid == 0 and not self.pid0_listed and (c.probe or self.pid != 0):
             return OSError(errno.ENOENT, os.strerror(errno.ENOENT), path)
